@@ -25,7 +25,7 @@ RULE = ("seeded random consistent battery/inverter data sets (1-5 groups, 1-3 ba
         "whose proportional share is below its min power or a multi-inverter group)")
 REQUIRED_BUCKETS = ["supply", "consume", "multi-inverter", "deficit-regime", "surplus>incl", "exponent-0",
                     "zero-headroom-group", "remainder-nonzero"]
-REQUIRED_COUNTERS = ["contract_public", "contract_greedy", "contract_multi"]
+REQUIRED_COUNTERS = ["contract_public", "contract_greedy", "contract_multi", "enforced_bounds_observed"]
 ASSUMPTIONS = ["float tolerance 1e-6*max(1,|power|)",
                "inputs restricted to the property's domain (consistent bounds, min power <= incl bound, "
                "|power| >= advertised exclusion bound)"]
@@ -74,7 +74,18 @@ def features(case: dict[str, Any], rec: Any) -> dict[str, Any]:
 
 
 def check(case: dict[str, Any], rec: Any) -> None:
-    f = features(case, rec)
+    _judge(case, rec, band=False)
+    # requests the distributor itself would admit (real BatteryManager._get_bounds) although they lie
+    # inside the pool-advertised exclusion zone: same oracle, separate bucket
+    rec.count("enforced_bounds_observed")
+    for power in distmon.band_requests(case):
+        rec.bucket("enforced-band-request")
+        rec.count("band_requests")
+        _judge(dict(case, power=power, power_kind="enforced-band"), rec, band=True)
+
+
+def _judge(case: dict[str, Any], rec: Any, band: bool) -> None:
+    f = features(case, rec) if not band else {"deficit": True, "multi": False}
     out = distmon.run(case)
     rec.count("contract_public", 1 if "public" in out["stages"] else 0)
     rec.count("contract_greedy", 1 if "greedy_in" in out["stages"] else 0)
@@ -86,11 +97,15 @@ def check(case: dict[str, Any], rec: Any) -> None:
     total = sum(dist.values())
     rep = distmon.stage_report(case, out)
     witness = {"power": p, "distribution": dist, "remaining": rem, "sum_plus_remaining": total + rem,
-               "stages": rep}
+               "stages": rep, "band": band}
+    if band:
+        witness["enforced_bounds"] = distmon.enforced_bounds(case)
+        witness["advertised_bounds"] = batdata.advertised(case)
     if abs(rem) > t:
         rec.bucket("remainder-nonzero")
-    rec.nontrivial(len(case["groups"]) >= 2 and (abs(rem) > t or f["deficit"] or f["multi"]))
-    rec.observed({"set_points": dist, "remaining": rem, "sum_error": total + rem - p})
+    if not band:
+        rec.nontrivial(len(case["groups"]) >= 2 and (abs(rem) > t or f["deficit"] or f["multi"]))
+        rec.observed({"set_points": dist, "remaining": rem, "sum_error": total + rem - p})
 
     expected_ids = {batdata.inv_id(g, j) for g, grp in enumerate(case["groups"]) for j in range(len(grp["invs"]))}
     if set(dist) != expected_ids:
